@@ -17,7 +17,7 @@ ID = 'C12'
 LEVEL = 'exploration'
 RULE = (
     'Hypothesis-generated (declared result type from a grammar of builtins, containers, unions, Optional, Literal, '
-    'pydantic models, nested; declared both as BaseEvent[T] class and via the event_result_type field) x 1-5 handlers '
+    'pydantic models, enums (incl. two distinct enum classes with the same name), nested; declared both as BaseEvent[T] class and via the event_result_type field) x 1-5 handlers '
     'returning strictly conforming / coercible / hopeless values, None, exception objects, events, or raising; then '
     'ALL 8 flag combinations x 5 include filters x 6 accessors are called on the completed event and compared with a '
     'reference implementation computed from the recorded results. Typing oracle: independent structural conformance '
@@ -68,6 +68,16 @@ class TNone(BaseEvent):
     pass
 
 
+def _twin_enum(members):
+    import enum
+
+    return enum.Enum('Status', members)  # two distinct classes with the same name and str()
+
+
+StatusA = _twin_enum({'RUNNING': 'running', 'DONE': 'done'})
+StatusB = _twin_enum({'PENDING': 'pending', 'SHIPPED': 'shipped'})
+
+
 class Carrier(BaseEvent):
     n: int = 0
 
@@ -91,6 +101,8 @@ TYPES: dict[str, tuple] = {
     'M': (M, TM, st.builds(M, a=st.integers(0, 3), b=_txt), st.sampled_from([{'a': 1}, {'a': '2', 'b': 'q'}]), st.sampled_from(['zz', 5, {'b': 'q'}, [1], {}, '', 0])),
     'list[M]': (list[M], None, st.lists(st.builds(M, a=st.integers(0, 3)), max_size=2), st.sampled_from([[{'a': 1}]]), st.sampled_from(['zz', 5, [{'b': 1}], {'a': 1}])),
     'dict[str,list[int]]': (dict[str, list[int]], None, st.dictionaries(st.sampled_from('ab'), st.lists(st.integers(0, 2), max_size=2), max_size=2), None, st.sampled_from(['zz', {'a': 1}, [1], {'a': ['q']}])),
+    'enumA': (StatusA, None, st.sampled_from(list(StatusA)), st.sampled_from(['running', 'done']), st.sampled_from(['shipped', 'pending', 5, [1]])),
+    'enumB': (StatusB, None, st.sampled_from(list(StatusB)), st.sampled_from(['pending', 'shipped']), st.sampled_from(['running', 'done', 5, [1]])),
     'none': (None, TNone, st.one_of(st.integers(0, 3), _txt, st.lists(st.integers(0, 2), max_size=2), st.dictionaries(st.sampled_from('ab'), st.integers(0, 2), max_size=2), st.sampled_from([1.5, b'x', (1, 2)])), None, None),
 }
 NON_CLASS = {'list[int]', 'dict[str,int]', 'tuple[int,str]', 'int|None', 'Optional[str]', 'Union[int,str]', "Literal['a','b']", 'list[M]', 'dict[str,list[int]]'}
@@ -100,6 +112,10 @@ def _enc(v):
     """JSON-able encoding of a generated value (replayable)."""
     if isinstance(v, M):
         return {'__M__': {'a': v.a, 'b': v.b}}
+    if isinstance(v, StatusA):
+        return {'__enumA__': v.value}
+    if isinstance(v, StatusB):
+        return {'__enumB__': v.value}
     if isinstance(v, bytes):
         return {'__bytes__': v.decode('latin1')}
     if isinstance(v, tuple):
@@ -115,6 +131,10 @@ def _dec(v):
     if isinstance(v, dict):
         if '__M__' in v:
             return M(**v['__M__'])
+        if '__enumA__' in v:
+            return StatusA(v['__enumA__'])
+        if '__enumB__' in v:
+            return StatusB(v['__enumB__'])
         if '__bytes__' in v:
             return v['__bytes__'].encode('latin1')
         if '__tuple__' in v:
@@ -342,6 +362,17 @@ def run_case(c):
                     return h
 
                 bus.on('*' if i >= c['wild'] else key, mk())
+            if tname in ('enumA', 'enumB'):
+                # a result for the twin type (same name, same str(), different class) is recorded first in this very case
+                twin, tval = (StatusB, StatusB.SHIPPED) if tname == 'enumA' else (StatusA, StatusA.DONE)
+                pbus = EventBus(name='P')
+
+                def primer(e, tval=tval):
+                    return tval
+
+                pbus.on('Prime', primer)
+                await pbus.dispatch(BaseEvent(event_type='Prime', event_result_type=twin))
+                await pbus.stop(clear=True)
             got = await bus.dispatch(ev)
             info['same'] = got is ev
             results = list(ev.event_results.values())
